@@ -201,6 +201,12 @@ class Judge:
         ct = norm(container)
         while p is not None and p is not self.f.node:
             p = getattr(p, '_parent', None)
+            if isinstance(p, (ast.For, ast.comprehension)) and isinstance(p.target, ast.Tuple) and len(p.target.elts) == 2 \
+                    and isinstance(p.target.elts[0], ast.Name) and p.target.elts[0].id == key.id:
+                # for key, value in container.items() / list(container.items())
+                it = norm(p.iter)
+                if it in ('%s.items()' % ct, 'list(%s.items())' % ct, 'tuple(%s.items())' % ct, 'sorted(%s.items())' % ct):
+                    return True
             if isinstance(p, (ast.For, ast.comprehension)) and isinstance(p.target, ast.Name) and p.target.id == key.id:
                 it = norm(p.iter)
                 if isinstance(p.iter, ast.Name):
